@@ -39,6 +39,8 @@ def all_paths_pass(cfg, start, through, also_ok=()):
 
 
 def run(ck, facts, tier):
+    from props.c03 import cycle_minimums
+    cycle_minimums(ck, facts, "C01.CYCLE-MINIMUMS")
     from shared import fixedpoint as _fpx
     _fpx.loop_exits(ck, facts, "C01.FIXPOINT-EXITS")
     from shared import clauses as _cl
